@@ -1,5 +1,7 @@
 import Batteries.Data.List.Basic
 import TTV.Model.Matchers
+import TTV.Model.MatchSkel
+import TTV.Generated.MatchSrc
 import TTV.Spec.C06
 /-! # C06 — matcher verdicts obey their declared semantics compositionally
 
@@ -697,6 +699,143 @@ theorem holds_model (i : Input) : holds i (model i) = true := by
     | none => simp
     | some s => rw [sound true i.m i.v s hs, sound false i.m i.v s hs]; simp
   · simp [cPure, model]
+
+
+/-! # source ties: the model is the interpretation of what `harness/pymatch2lean.py` finds in the tree
+
+`TTV.Generated.MatchSrc` is rewritten from `testtools/matchers/*.py` on every run.  Each `C06_src_*` theorem states
+(1) the generated data equals the reference data (`decide`), and/or (2) the hand-written `matchImpl` clause is the
+interpretation (`TTV.MatchSkel.*I`) of the generated data. -/
+section SourceTies
+open TTV.MatchSkel TTV.Generated
+
+theorem loopI_refAny (fo any : Bool) (rs : List Verdict) : loopI refAny fo any rs = seqAny rs := by
+  unfold refAny
+  induction rs generalizing any with
+  | nil => simp [loopI, seqAny]
+  | cons r rs ih => cases r <;> simp [loopI, firstArm, ResTest.holds, seqAny, ih]
+
+theorem loopI_refAll (fo bad : Bool) (rs : List Verdict) : loopI refAll fo bad rs = seqAllAux fo bad rs := by
+  unfold refAll
+  induction rs generalizing bad with
+  | nil => cases bad <;> simp [loopI, seqAllAux]
+  | cons r rs ih => cases r <;> cases fo <;> simp [loopI, firstArm, ResTest.holds, seqAllAux, ih]
+
+theorem loopI_refAllMatch (fo bad : Bool) (rs : List Verdict) : loopI refAllMatch fo bad rs = seqAllAux false bad rs := by
+  unfold refAllMatch
+  induction rs generalizing bad with
+  | nil => cases bad <;> simp [loopI, seqAllAux]
+  | cons r rs ih => cases r <;> simp [loopI, firstArm, ResTest.holds, seqAllAux, ih]
+
+theorem loopI_refAnyMatch (fo any : Bool) (rs : List Verdict) : loopI refAnyMatch fo any rs = seqAny rs := by
+  unfold refAnyMatch
+  induction rs generalizing any with
+  | nil => simp [loopI, seqAny]
+  | cons r rs ih => cases r <;> simp [loopI, firstArm, ResTest.holds, seqAny, ih]
+
+theorem loopI_refListwise (fo bad : Bool) (rs : List Verdict) : loopI refListwise.loop fo bad rs = seqAllAux fo bad rs := by
+  simp only [refListwise]
+  induction rs generalizing bad with
+  | nil => cases bad <;> simp [loopI, seqAllAux]
+  | cons r rs ih => cases r <;> cases fo <;> simp [loopI, firstArm, ResTest.holds, seqAllAux, ih]
+
+/-- the four result loops of `_higherorder.py` as found in the source -/
+theorem C06_src_loops :
+    MatchSrc.matchesAny = refAny ∧ MatchSrc.matchesAll = refAll ∧ MatchSrc.allMatch = refAllMatch ∧
+    MatchSrc.anyMatch = refAnyMatch := by decide
+
+/-- `MatchesAny` / `MatchesAll`: the model's clauses are the source's loops run over the sub-results -/
+theorem C06_src_matchesAny (sel : Bool) (ms : List M) (v : V) :
+    matchImpl sel (.any ms) v = loopI MatchSrc.matchesAny false false (matchRow sel ms v) := by
+  rw [C06_src_loops.1, loopI_refAny]; simp [matchImpl]
+theorem C06_src_matchesAll (sel fo : Bool) (ms : List M) (v : V) :
+    matchImpl sel (.all fo ms) v = loopI MatchSrc.matchesAll fo false (matchRow sel ms v) := by
+  rw [C06_src_loops.2.1, loopI_refAll]; simp [matchImpl, seqAll]
+/-- `AllMatch` / `AnyMatch` -/
+theorem C06_src_allMatch (sel : Bool) (m : M) (v : V) :
+    matchImpl sel (.allMatch m) v = (match pyIter v with
+      | none => .raised .typeError
+      | some xs => loopI MatchSrc.allMatch false false (xs.map (matchImpl sel m))) := by
+  rw [C06_src_loops.2.2.1]; simp only [matchImpl, loopI_refAllMatch, seqAll]
+  cases pyIter v <;> rfl
+theorem C06_src_anyMatch (sel : Bool) (m : M) (v : V) :
+    matchImpl sel (.anyMatch m) v = (match pyIter v with
+      | none => .raised .typeError
+      | some xs => loopI MatchSrc.anyMatch false false (xs.map (matchImpl sel m))) := by
+  rw [C06_src_loops.2.2.2]; simp only [matchImpl, loopI_refAnyMatch]
+  cases pyIter v <;> rfl
+
+/-- no class of `testtools/matchers/*.py` overrides truthiness (`__bool__` / `__len__`): a stock mismatch object is truthy, so the
+`truthy` / `falsy` tests of the loops above read as `ResTest.holds` says -/
+theorem C06_src_mismatch_truthy : MatchSrc.mismatch.truthOverrides = [] := by decide
+
+/-- `Not`, `Annotate`: the test on the inner result and what is returned -/
+theorem C06_src_wrappers : MatchSrc.notM = refNot ∧ MatchSrc.annotate = refAnnotate ∧
+    MatchSrc.afterPreprocessing = refAfter ∧ MatchSrc.matchesPredicate = refPredicate ∧
+    MatchSrc.matchesPredicateWithParams = refPredicate := by decide
+theorem C06_src_not (sel : Bool) (m : M) (v : V) :
+    matchImpl sel (.not m) v = wrapI MatchSrc.notM (matchImpl sel m v) := by
+  rw [C06_src_wrappers.1]
+  simp only [matchImpl]
+  cases matchImpl sel m v <;> simp [wrapI, refNot, ResTest.holds, WrapRet.verdict]
+theorem C06_src_annotate (sel : Bool) (m : M) (v : V) :
+    matchImpl sel (.annotate m) v = wrapI MatchSrc.annotate (matchImpl sel m v) := by
+  rw [C06_src_wrappers.2.1]
+  simp only [matchImpl]
+  cases matchImpl sel m v <;> simp [wrapI, refAnnotate, ResTest.holds, WrapRet.verdict]
+
+/-- `_BinaryComparison.match` and the operator table of its five subclasses -/
+theorem C06_src_binary_table : MatchSrc.binaryComparison = refBin := by decide
+theorem C06_src_binary (e v : V) :
+    leafImpl (.equals e) v = binI MatchSrc.binaryComparison "Equals" e v ∧
+    leafImpl (.notEquals e) v = binI MatchSrc.binaryComparison "NotEquals" e v ∧
+    leafImpl (.is_ e) v = binI MatchSrc.binaryComparison "Is" e v ∧
+    leafImpl (.lessThan e) v = binI MatchSrc.binaryComparison "LessThan" e v ∧
+    leafImpl (.greaterThan e) v = binI MatchSrc.binaryComparison "GreaterThan" e v := by
+  rw [C06_src_binary_table]
+  refine ⟨?_, ?_, ?_, ?_, ?_⟩ <;> simp [leafImpl, binI, rowOf, refBin, cmpI]
+  · cases pyLt v e <;> rfl
+  · cases pyLt e v <;> rfl
+
+/-- `MatchesListwise`: the length check comes first and is collected, then the positional loop -/
+theorem C06_src_listwise_skel : MatchSrc.matchesListwise = refListwise := by decide
+theorem C06_src_listwise (fo : Bool) (n : Nat) (rs : List Verdict) (v : V) :
+    listwiseImpl fo n rs v = (match pyLen v with
+      | none => .raised .typeError
+      | some len => loopI MatchSrc.matchesListwise.loop fo (len != n) rs) := by
+  rw [C06_src_listwise_skel]
+  simp only [listwiseImpl, loopI_refListwise]
+  cases pyLen v <;> rfl
+
+/-- `MatchesStructure` (attributes in sorted order, each read before anything is matched, then `MatchesListwise`),
+`MatchesSetwise` (every occurrence of a matcher counts, value-major acceptance matrix tested with `is None`, an
+augmenting-path pairing, a mismatch iff something is left over), `ContainsAll` -/
+theorem C06_src_datastructures : MatchSrc.matchesStructure = refStructure ∧ MatchSrc.matchesSetwise = refSetwise ∧
+    MatchSrc.containsAll = refContainsAll := by decide
+
+/-- the dict matchers: which of extra / missing / differences each class reports, in which order; no short-circuit;
+a part is kept iff truthy; `KeysEqual` decides by both subtractions -/
+theorem C06_src_dict_skel : MatchSrc.dictMatchers = refDict := by decide
+theorem C06_src_dict (kind : DictKind) (ks : List Key) (diffs : List (Option Verdict)) (oks : List Key) (ovs : List V) :
+    dictImpl kind ks diffs (.dict oks ovs) =
+      seqAllAux false
+        (dictOwnI (dictRow MatchSrc.dictMatchers (dictClass kind))
+          (oks.any fun k => !ks.contains k) (ks.any fun k => !oks.contains k))
+        (somes diffs) := by
+  rw [C06_src_dict_skel]
+  cases kind <;> simp [dictImpl, dictOwnI, dictRow, refDict, dictClass]
+
+/-- the remaining leaves of `_basic.py`: `Contains` (which exceptions of `in` mean "not contained"), `SameMembers`
+(both subtractions empty), `StartsWith` / `EndsWith` / `MatchesRegex` / `IsInstance` (the deciding call and its sense) -/
+theorem C06_src_leaves : MatchSrc.containsM = refContains ∧ MatchSrc.sameMembers = refSameMembers ∧
+    MatchSrc.startsWith = refStartsWith ∧ MatchSrc.endsWith = refEndsWith ∧ MatchSrc.matchesRegex = refRegex ∧
+    MatchSrc.isInstanceM = refIsInstance := by decide
+
+/-- `MatchesException.match` (the ladder of tests, in order) and `Raises.match` (call inside `try`, "returned" is a
+mismatch, `except BaseException`, the matcher guard, "matched" = falsy mismatch, the propagate rule) -/
+theorem C06_src_exception : MatchSrc.matchesException = refMatchesException ∧ MatchSrc.raisesM = refRaises := by decide
+
+end SourceTies
 
 /-! ## non-vacuity -/
 -- the only perfect pairing is not the greedy one in either order: 1↦Equals(1), 2↦Any(1,2), 3↦Any(2,3)
